@@ -23,6 +23,7 @@ type EvalCtx struct {
 	noq     bool              // inside <==> / ite condition: no skolemisation or instantiation
 	skolems map[string]Val    // skolem constants introduced so far (by bound variable name)
 	instAt  map[string]string // instantiate positive universal quantifiers over these variables
+	goalInst map[string][]string // goal position: replace negative universal quantifiers by these instances
 }
 
 func (c *EvalCtx) flip() *EvalCtx {
@@ -342,6 +343,23 @@ func (g *FnGen) evalQuant(x EForall, ctx *EvalCtx) Val {
 			return Val{T: or(parts...), S: sortBool}
 		}
 		return Val{T: and(parts...), S: sortBool}
+	}
+	if !ctx.noq && ctx.neg && !x.Exists && ctx.skolem {
+		if ts, ok := ctx.goalInst[x.Var]; ok {
+			// a hypothesis of the goal: weakening it to finitely many instances is sound
+			var parts []string
+			for _, t := range ts {
+				nb2 := map[string]Val{}
+				for k, v := range nb {
+					nb2[k] = v
+				}
+				nb2[x.Var] = Val{T: t, S: s, Signed: signed, Go: gt}
+				c2 := *ctx
+				c2.bound = nb2
+				parts = append(parts, g.evalBool(x.Body, &c2))
+			}
+			return Val{T: and(parts...), S: sortBool}
+		}
 	}
 	if !ctx.noq && !ctx.neg && !x.Exists {
 		if t, ok := ctx.instAt[x.Var]; ok {
@@ -689,10 +707,30 @@ func (g *FnGen) obligeClause(kind, label, guard string, c Clause, ctx *EvalCtx, 
 	gc := *ctx
 	gc.skolem = true
 	gc.skolems = map[string]Val{}
+	var hints []Clause
+	if c.Name != "" {
+		if g.C != nil {
+			hints = append(hints, g.C.Insts[c.Name]...)
+		}
+		hints = append(hints, g.S.GlobalInsts[c.Name]...)
+	}
+	for _, h := range hints {
+		if r, ok := h.E.(ERange); ok {
+			if gc.goalInst == nil {
+				gc.goalInst = map[string][]string{}
+			}
+			for i := new(big.Int).Set(r.Lo); i.Cmp(r.Hi) <= 0; i = new(big.Int).Add(i, big.NewInt(1)) {
+				gc.goalInst[h.Name] = append(gc.goalInst[h.Name], bvLit(i, 64))
+			}
+		}
+	}
 	t := g.evalBool(c.E, &gc)
 	var extras []string
-	if g.C != nil && c.Name != "" && len(gc.skolems) > 0 {
-		for _, h := range g.C.Insts[c.Name] {
+	if c.Name != "" && len(gc.skolems) > 0 {
+		for _, h := range hints {
+			if _, ok := h.E.(ERange); ok {
+				continue
+			}
 			hc := gc
 			hc.skolem = false
 			nb := map[string]Val{}
